@@ -27,7 +27,9 @@ LEVEL_NOTE = ("Trusted: vf.refs.kvline (Tor's SETCONF grammar), ConfTor/ConfigSt
               "line list = all values in order, bare key / empty value = clear), the reference pending-set model in this file.")
 RULE = ("a case = one option table (>= 1 option of every declared type + 1-2 *PortLines families, random initial values) "
         "x one history of <= 12 steps (assign / append / extend / insert / remove / pop / setitem / slice-setitem / "
-        "save accepted / save rejected 513|552), option names spelled in random case; class 'midack' additionally makes "
+        "save accepted / save rejected 513|552), option names spelled in random case (Boolean options named HiddenService* in "
+        "6 tables of 10; integer-typed options also assigned bools, integral floats, padded / signed / zero-padded numeric "
+        "strings); class 'midack' additionally makes "
         "one edit between save() and its ack; class 'alias' assigns to a list option the object read from ANOTHER list "
         "option of this or of a second TorConfig, saves, then edits target and source in place; class 'overlap' has 2-3 "
         "save() calls outstanding at once (edits between them and after the last), answered in order, each accepted or "
@@ -56,6 +58,14 @@ ASSUMPTIONS = [
     "assignments that the declared type cannot validate (Integer-like = 'seven' / None, Boolean+Auto = 'auto', LineList = "
     "a str / tuple / int) must raise and leave value and pending change untouched; Boolean, Float, String-like, comma and "
     "*Port options validate nothing and get no such step",
+    "integer-typed options (Integer, SignedInteger, Port, TimeInterval, DataSize) are assigned, in 3 of 10 assignments, a "
+    "value int() accepts whose str() is not the canonical decimal text: True / False, an integral float, a numeric string "
+    "with blanks or tabs around it, a plus sign or leading zeros; the validated value is the integer, so the SETCONF must "
+    "carry str(int(value)) - or the assignment is refused with ValueError / TypeError and nothing changes (counted); "
+    "non-integral floats and digit-group underscores are not generated",
+    "in 6 of 10 tables the Boolean options carry the names of Tor's stand-alone Boolean options that start with "
+    "'HiddenService' (HiddenServiceStatistics, HiddenServiceSingleHopMode, HiddenServiceNonAnonymousMode): ordinary "
+    "options, judged like every other Boolean; the per-service HiddenServiceDir/Port/... family (txtorcon's HiddenServices pseudo-option) is not in the tables",
     "valid scalars are never assigned the empty string; list options are otherwise only assigned lists; Port-family options that "
     "bootstrap from neither a value nor a default only get append/extend/insert(0)/assignment (their base view is "
     "txtorcon's [DEFAULT] marker list, outside the model)",
@@ -84,6 +94,7 @@ FLOORS = {
               "escaped_values_decoded": 80, "assigned_from_other_option": 150, "overlapping_saves": 120,
               "overlap_outcomes_checked": 50, "invalid_assignments": 100, "invalid_assignments_on_pending_option": 25,
               "foreign_events": 150, "foreign_events_on_pending_option": 40, "crlf_values_decoded": 40, "held_object_edits": 20, "marker_like_values_runtime": 60,
+              "odd_int_spellings_decoded": 120, "hiddenservice_prefixed_options_decoded": 60,
               "reach:txtorcon.torconfig:TorConfig.save": 1500,
               "reach:txtorcon.torconfig:TorConfig.mark_unsaved": 500,
               "reach:txtorcon.torconfig:TorConfig._save_completed": 650,
@@ -91,6 +102,7 @@ FLOORS = {
     "thorough": {"evaluations": 9000, "setconf_lines_decoded": 15000, "quiet_checks": 40000, "saves_rejected": 2500,
                  "reads_compared": 25000, "second_save_checks": 10000, "midack_edits": 1500, "inplace_ops": 9000,
                  "escaped_values_decoded": 1500, "assigned_from_other_option": 1500, "overlapping_saves": 2500,
+                 "odd_int_spellings_decoded": 1500, "hiddenservice_prefixed_options_decoded": 700,
                  "reach:txtorcon.torconfig:TorConfig.save": 30000,
                  "reach:txtorcon.torcontrolprotocol:TorControlProtocol.set_conf": 15000},
 }
@@ -327,6 +339,8 @@ def _gen_assign_value(rnd, typ):
             return rnd.choice([-1, 0, 1, True, False])
         if typ in CT.INT_TYPES:
             raw = CT.gen_scalar_raw(rnd, typ)
+            if rnd.random() < 0.3:
+                return odd_int(rnd, typ, raw)
             return rnd.choice([int(raw), raw])
         if typ == "TimeMsecInterval":
             raw = CT.gen_scalar_raw(rnd, typ)
@@ -348,6 +362,61 @@ def _gen_assign_value(rnd, typ):
     if k == "portlist" and out and rnd.random() < 0.25:
         out = [rnd.choice([9050, 9150, 1337, 5353])] + [x for x in out[1:]]
     return out
+
+
+def odd_int(rnd, typ, raw):
+    """a value int() accepts for an integer-typed option but whose str() is not the canonical decimal text: a bool, an
+    integral float, a numeric string with blanks around it, a plus sign or leading zeros.  The validated value is the
+    integer: the wire must carry str(int(value)) (or the assignment is refused with ValueError / TypeError)"""
+    i = int(raw)
+    r = rnd.random()
+    if r < 0.2:
+        return rnd.choice([True, False])
+    if r < 0.4:
+        return float(i) if abs(i) < 2 ** 40 else 900.0
+    sign = "-" if i < 0 else ""
+    digits = str(abs(i))
+    r = rnd.random()
+    if r < 0.45:
+        return rnd.choice([" %s", "%s ", "  %s  ", "\t%s", " %s\t"]) % raw
+    if r < 0.7:
+        return sign + rnd.choice(["0", "00", "000"]) + digits
+    if r < 0.9 or i < 0:
+        return ("+" + digits) if i >= 0 else (" " + raw)
+    return " +" + rnd.choice(["", "0"]) + digits + " "
+
+
+def int_spelling(v):
+    """structural class of a value assigned to an integer-typed option ('' = an int or its canonical decimal text)"""
+    if isinstance(v, bool):
+        return "bool"
+    if isinstance(v, float):
+        return "float"
+    if isinstance(v, str):
+        try:
+            if v == str(int(v)):
+                return ""
+        except ValueError:
+            return ""
+        f = []
+        t = v.strip()
+        if t != v:
+            f.append("blank-padded")
+        if t.startswith("+"):
+            f.append("plus-sign")
+        if len(t.lstrip("+-")) > 1 and t.lstrip("+-").startswith("0"):
+            f.append("leading-zeros")
+        return "numeric-string:" + ("+".join(f) or "other")
+    return ""
+
+
+# real Tor options whose names start with 'HiddenService' but are ordinary stand-alone Boolean options (not part of the
+# HiddenServiceOptions family that txtorcon folds into the 'HiddenServices' pseudo-option)
+HS_PREFIXED_BOOLS = ["HiddenServiceStatistics", "HiddenServiceSingleHopMode", "HiddenServiceNonAnonymousMode"]
+
+
+def hs_prefixed(n):
+    return n.lower().startswith("hiddenservice")
 
 
 MARKERS = ["DEFAULT", "DEFAULT", "default", "NEVER", "auto", "0"]     # strings that look like txtorcon / Tor markers
@@ -450,6 +519,14 @@ def c10_table(rnd):
             o["default"] = None
             if not o["init"]:             # an empty comma list is viewed as [''] (tolerated by C11): not a base to edit
                 o["init"] = CT.gen_values(rnd, o["type"], rnd.choice(["single", "multi"]))
+    # in 6 tables of 10 the Boolean options are ones whose names start with 'HiddenService' (Tor lists them in
+    # config/names like any other Boolean option; they have nothing to do with the HiddenServices pseudo-option)
+    if rnd.random() < 0.6:
+        names = list(HS_PREFIXED_BOOLS)
+        rnd.shuffle(names)
+        for o in table:
+            if o["type"] == CT.BOOL and names:
+                o["name"] = names.pop()
     return table
 
 
@@ -863,6 +940,7 @@ class Run(object):
         self.evented = set()         # options that had a pending local change when a CONF_CHANGED named them
         self.failed_assign = set()   # options that had a pending change when an assignment to them failed validation
         self.other = None            # a second, never edited TorConfig over the same table (source of values)
+        self.spelling = {}           # integer-typed option -> int_spelling() of the value its pending assignment was given
 
     def V(self, clause, cls, detail):
         self.rec.violation(clause, cls, detail, self.case)
@@ -873,6 +951,10 @@ class Run(object):
         if n in self.m.pending:
             parts.append(self.m.pending[n][0])
         parts.extend(extra)
+        if hs_prefixed(n):
+            parts.append("name-starts-with-HiddenService")
+        if n in self.m.pending and self.spelling.get(n):
+            parts.append("assigned-as-" + self.spelling[n])
         if "equals-DEFAULT" in parts and self.default_modes:
             parts.append("built:" + "/".join(sorted(self.default_modes)))
         if n in self.failed_assign:
@@ -904,6 +986,7 @@ class Run(object):
     def do_edit(self, st, cfg, link, where="between-saves"):
         n0 = len(link.transport.writes)
         exc = None
+        odd = ""
         try:
             if st["op"] == "assign" and st.get("from"):
                 src = cfg
@@ -927,6 +1010,13 @@ class Run(object):
                     self.V("invalid-value-accepted", self.m.klass(st["opt"]), {"step": st})
             elif st["op"] == "assign":
                 v = materialize(st["value"], self.marker_mode(st))
+                if self.m.types[st["opt"]] in CT.INT_TYPES:
+                    odd = int_spelling(v)
+                    if odd:
+                        self.rec.count("odd_int_spellings_assigned")
+                        self.rec.seen("int_spellings", odd)
+                if hs_prefixed(st["opt"]):
+                    self.rec.count("hiddenservice_prefixed_assignments")
                 setattr(cfg, st["name"], list(v) if isinstance(v, list) else v)
             else:
                 if st.get("held") and st["opt"] in self.held:
@@ -952,10 +1042,20 @@ class Run(object):
             self.V("edit-raised-" + type(e).__name__, self.m.klass(st["opt"]) + "+" + st["op"], {"step": st, "exc": repr(e)})
         refused = exc is not None and st["op"] == "assign" and not st.get("invalid") and not st.get("from") \
             and "cr-or-lf" in vfeat(st["value"])
-        if refused:
+        if odd and exc is not None and not st.get("invalid") and isinstance(exc, (ValueError, TypeError)):
+            # a legitimate answer to a bool / float / padded or signed numeric string for an integer-typed option:
+            # refused at assignment, value and pending change stay as they were
+            self.rec.count("odd_int_spellings_refused_at_assignment")
+            refused = True
+        elif refused:
             self.rec.count("crlf_values_refused_at_assignment")      # a legitimate answer to a value with CR / LF
-        else:
+        if not refused:
             self.m.edit(st)
+            if st["op"] == "assign" and not st.get("invalid"):       # (a failed assignment leaves the pending one)
+                if odd:
+                    self.spelling[st["opt"]] = odd
+                else:
+                    self.spelling.pop(st["opt"], None)
         self.rec.count("quiet_checks")
         self.rec.count("edits_applied")
         if exc is not None:
@@ -1058,6 +1158,10 @@ class Run(object):
                     self.V(clause, self.cls(c, *filter(None, [vfeat(want)])),
                            {"line": line, "option": c, "want": want, "got": vals})
             self.rec.count("options_compared")
+            if hs_prefixed(c):
+                self.rec.count("hiddenservice_prefixed_options_decoded")
+            if kind == "scalar" and self.spelling.get(c) and c in m.pending and m.pending[c][2] == expected[c][2]:
+                self.rec.count("odd_int_spellings_decoded")
             self.rec.seen("kinds_delivered", m.klass(c) + "/" + how)
             if vfeat(want):
                 self.rec.count("escaped_values_decoded")
